@@ -27,6 +27,7 @@ type Program struct {
 	Ghosts    map[string]*GhostDecl
 	Lemmas    []*Lemma
 	Axioms    []*Axiom
+	Guards    []*GuardDecl
 	Files     []*ContractFile
 	LoadErrs  []string
 	gtab      globalTable
@@ -183,6 +184,7 @@ func (p *Program) addFile(cf *ContractFile) {
 	}
 	p.Lemmas = append(p.Lemmas, cf.Lemmas...)
 	p.Axioms = append(p.Axioms, cf.Axioms...)
+	p.Guards = append(p.Guards, cf.Guards...)
 }
 
 // resolveImplements merges the interface contracts a method contract declares to implement into it: the interface's
